@@ -51,11 +51,32 @@ def units(tier):
     for f in range(len(soup.V)):
         us.append({'k': 'tract', 'first': f})
     us.append({'k': 'invalid'})
+    for slot in ('twp', 'rge'):
+        for form in range(len(OCR_FORMS)):
+            us.append({'k': 'ocr', 'slot': slot, 'form': form})
     return us
 
 
+# every character the OCR-scrub pattern admits in a number slot (class [0-9SOIl\]\|], matched case-insensitively)
+OCR_CHARS = '0159SsOoIiLl]|'
+OCR_FORMS = [lambda a, b: f"T{a}N-R{b}W", lambda a, b: f"T{a}S R{b}E", lambda a, b: f"Township {a} North, Range {b} West",
+             lambda a, b: f"T{a}NR{b}W", lambda a, b: f"t{a}n-r{b}w"]
+OCR_MODES = [('ocr_scrub', {'config': 'ocr_scrub'}, None), ('ocr_scrub,segment', {'config': 'ocr_scrub,segment'}, None),
+             ('parse:ocr_scrub', {}, ('parse', {'ocr_scrub': True})), ('default', {}, None)]
+
+
+def ocr_texts(slot, form):
+    import itertools
+    f = OCR_FORMS[form]
+    for L in (1, 2, 3):
+        for chars in itertools.product(OCR_CHARS, repeat=L):
+            num = ''.join(chars)
+            a, b = (num, '97') if slot == 'twp' else ('154', num)
+            yield f"{f(a, b)} Sec 14: NE/4"
+
+
 def space(tier):
-    return {'bound': soup.space_text(tier) + '; Tract side: soup depth <= 3 x 11 configurations; invalid-argument menu',
+    return {'bound': soup.space_text(tier) + '; Tract side: soup depth <= 3 x 11 configurations; invalid-argument menu; OCR look-alikes: every 1-3 character string over the 14 characters the OCR pattern admits, in the township and in the range slot of 5 spellings x 4 modes',
             'caps_hit': []}
 
 
@@ -252,6 +273,17 @@ def run_unit(unit, tier):
             judge_tract(acc, text)
     elif k == 'invalid':
         judge_invalid(acc)
+    elif k == 'ocr':
+        for text in ocr_texts(unit['slot'], unit['form']):
+            for mode in OCR_MODES:
+                judge_plss(acc, text, mode)
+            if unit['form'] == 0:
+                try:
+                    _p.find_twprge(text, ocr_scrub=True)
+                    _p.PLSSDesc(text, config='ocr_scrub').preprocess(ocr_scrub=True)
+                except Exception as e:  # noqa
+                    acc.violation('exception', f"C03:exception:{type(e).__name__}@{exc_site(e)}", {'k': 'plss', 'text': text, 'mode': 'ocr_scrub'},
+                                  got=f"{type(e).__name__}: {e}", note='find_twprge / preprocess with ocr_scrub')
     else:
         for text, mode in soup.unit_cases(unit, tier):
             judge_plss(acc, text, mode)
@@ -264,7 +296,7 @@ def run_unit(unit, tier):
 def replay(case):
     acc = Acc()
     if case['k'] == 'plss':
-        mode = soup.mode_by_name(case['mode'])
+        mode = next((m for m in OCR_MODES if m[0] == case['mode']), None) or soup.mode_by_name(case['mode'])
         judge_plss(acc, case['text'], mode)
     elif case['k'] in ('tract', 'tractparse'):
         judge_tract(acc, case['text'])
